@@ -98,6 +98,8 @@ pub struct FsState {
     pub faults: BTreeMap<u64, Fault>,
     pub fired: Vec<(u64, &'static str, OpKind)>,
     pub dead: bool,
+    /// foreign directory entries whose names are not valid UTF-8: (directory, raw name bytes); only ever listed
+    pub raw_entries: Vec<(String, Vec<u8>)>,
 }
 
 pub fn norm(path: &Path) -> String {
@@ -149,6 +151,7 @@ impl SimFs {
                 faults: BTreeMap::new(),
                 fired: Vec::new(),
                 dead: false,
+                raw_entries: Vec::new(),
             })),
             on_op: None,
             fault_fn: None,
@@ -393,6 +396,12 @@ impl SimFilesystem for SimFs {
                             pb.push(name_of(f));
                             pb
                         })
+                        .chain(st.raw_entries.iter().filter(|(d, _)| *d == p).map(|(_, raw)| {
+                            use std::os::unix::ffi::OsStrExt;
+                            let mut pb = PathBuf::from(path);
+                            pb.push(std::ffi::OsStr::from_bytes(raw));
+                            pb
+                        }))
                         .collect()
                 };
                 let crash = matches!(d, Decision::Fault(Fault::CrashAfter));
